@@ -405,13 +405,15 @@ func runC03(c *Ctx) {
 		c.Unresolved("C03.R5", "proxy.parseProxyTimeout")
 	}
 	if fn := c.M(pkg, "downStream", "cleanUp"); fn != nil {
-		stops := callsIn(fn, false, func(cc *ssa.CallCommon) bool { return methodName(cc) == "Stop" })
-		nils := 0
+		// through the helpers cleanUp calls on the same stream (a `stopTimers()` extracted from it is the same code)
+		stopped, niled := timerTouches(fn, 2)
+		stops, nils := []int{}, 0
 		for _, f := range []string{"perRetryTimer", "responseTimer"} {
-			for _, st := range storesToField(fn, ".downStream", f, false) {
-				if isNilConst(st.Val) {
-					nils++
-				}
+			if stopped[f] {
+				stops = append(stops, 1)
+			}
+			if niled[f] {
+				nils++
 			}
 		}
 		c.Check("C03.R5", funcKey(fn)+":stops-timers", fn.Pos(), len(stops) == 2 && nils == 2, "both timers stopped and cleared", "cleanUp no longer stops and clears both timers")
@@ -911,4 +913,41 @@ func c03CleanOnlyOnTerminalOutcome(c *Ctx, pkg string) {
 	if n < 7 {
 		c.Unresolved("C03.R12", fmt.Sprintf("call sites of downStream.cleanStream (found %d)", n))
 	}
+}
+
+// timerTouches: the downStream timer fields fn stops (Stop called on the value loaded from the field) and clears (nil
+// stored), also in the methods of the same package it calls statically, to the given depth.
+func timerTouches(fn *ssa.Function, depth int) (stopped, niled map[string]bool) {
+	stopped, niled = map[string]bool{}, map[string]bool{}
+	seen := map[*ssa.Function]bool{}
+	var walk func(f *ssa.Function, d int)
+	walk = func(f *ssa.Function, d int) {
+		if f == nil || seen[f] || len(f.Blocks) == 0 {
+			return
+		}
+		seen[f] = true
+		for _, b := range f.Blocks {
+			for _, in := range b.Instrs {
+				if st, ok := in.(*ssa.Store); ok && isNilConst(st.Val) {
+					if t, fld, _, isF := fieldAddrInfo(st.Addr); isF && strings.HasSuffix(t, "downStream") && strings.HasSuffix(fld, "Timer") {
+						niled[fld] = true
+					}
+				}
+				ci, ok := in.(ssa.CallInstruction)
+				if !ok {
+					continue
+				}
+				if methodName(ci.Common()) == "Stop" {
+					if t, fld, _, isF := loadedField(recvOf(ci.Common())); isF && strings.HasSuffix(t, "downStream") {
+						stopped[fld] = true
+					}
+				}
+				if callee := ci.Common().StaticCallee(); callee != nil && callee.Pkg == fn.Pkg && d > 0 {
+					walk(callee, d-1)
+				}
+			}
+		}
+	}
+	walk(fn, depth)
+	return
 }
